@@ -60,6 +60,11 @@ def node_failures(sp, dt, order):
     except Exception as e:
         return out + ["raises:normal:%s" % type(e.__cause__ or e).__name__], None
     ref = Hm @ M
+    if dt in ("complex64", "float32") and not (np.all(np.isfinite(ref)) and np.max(np.abs(ref), initial=0.0) < 1e30
+                                               and np.all(np.isfinite(Nm))):
+        # A^H A leaves the single-precision range (e.g. Kaiser-Bessel beta 13.5 wrapped many times around a 1x1 grid
+        # gives entries 4e19, their squares 1.7e39 > 3.4e38): overflow of the dtype, not a statement about A.N
+        return ["forward-or-adjoint-unavailable"], None
     scale = max(np.linalg.norm(M) * np.linalg.norm(Hm), 1e-30)
     if Nm.shape == ref.shape and not np.linalg.norm(Nm - ref) <= tol(dt) * scale:
         scale = max(scale, LO.tree_opscale(sp, dt) ** 2)     # operands' scale, not the cancelling result's
